@@ -305,6 +305,9 @@ const keyExtType = "ext-type:undetermined"
 const keyNilList = "nil-list:content-lost"
 
 func nilListWithContent(x *gtab.Info) bool {
+	if x.ScriptList != nil && x.LookupList != nil && x.FeatureList == nil {
+		return true // the reader rejects a NULL feature list offset next to the others
+	}
 	return (x.ScriptList == nil || x.FeatureList == nil || x.LookupList == nil) &&
 		len(x.ScriptList)+len(x.FeatureList)+len(x.LookupList) > 0
 }
@@ -318,7 +321,7 @@ func siteKey(c *infoCase, clause string) string {
 		// extension records are only written for tables beyond 64 KiB
 		return keyExtType
 	}
-	if nilListWithContent(c.info) {
+	if nilListWithContent(c.info) && clause == "lists-dropped" {
 		return keyNilList
 	}
 	for _, s := range c.sites {
@@ -362,10 +365,20 @@ func checkInfo(c *infoCase) (*verdict, *failure) {
 		return v, &failure{key: siteKey(c, "read"), msg: fmt.Sprintf("Read of the emitted bytes: %s", pn)}
 	}
 	if err != nil {
-		return v, &failure{key: siteKey(c, "read"), msg: fmt.Sprintf("Read of the emitted bytes fails: %v", err)}
+		clause := "read"
+		if strings.Contains(err.Error(), "header has invalid offset 0") {
+			clause = "lists-dropped" // a NULL offset next to non-NULL ones
+		}
+		return v, &failure{key: siteKey(c, clause), msg: fmt.Sprintf("Read of the emitted bytes fails: %v", err)}
 	}
 	if err := equal(expectInfo(c.info), got); err != nil {
-		return v, &failure{key: siteKey(c, "roundtrip"), msg: "Read(Encode(x)) != x: " + err.Error()}
+		clause := "roundtrip"
+		x := c.info
+		if len(got.ScriptList) == 0 && len(got.FeatureList) == 0 && len(got.LookupList) == 0 &&
+			len(x.ScriptList)+len(x.FeatureList)+len(x.LookupList) > 0 {
+			clause = "lists-dropped" // the reader returned the empty table
+		}
+		return v, &failure{key: siteKey(c, clause), msg: "Read(Encode(x)) != x: " + err.Error()}
 	}
 	if len(c.overflow) > 0 {
 		// cannot happen if the generator's arithmetic is right
